@@ -1153,6 +1153,31 @@ impl VisitMut for Norm {
                             self.log("N8i-set-into_iter-collect", sp);
                         }
                     }
+                    "collect" if mc.args.is_empty() && matches!(&*mc.receiver, Expr::MethodCall(i) if i.method == "filter_map" && i.args.len() == 1
+                        && matches!(&i.args[0], Expr::Closure(c) if c.inputs.len() == 1 && !body_has_return(&c.body))) => {
+                        // N8j: ITER.filter_map(|p| B).collect() (into a Vec) => push loop over ITER keeping the `Some` results in order (definition)
+                        if let Expr::MethodCall(inner) = &*mc.receiver {
+                            if let Expr::Closure(c) = &inner.args[0] {
+                                let it = &inner.receiver;
+                                let pat = match c.inputs[0].clone() {
+                                    Pat::Type(pt) => *pt.pat,
+                                    p => p,
+                                };
+                                let body = &c.body;
+                                let acc = self.fresh("vec");
+                                let v = self.fresh("v");
+                                let ne: Expr = parse_quote!({
+                                    let mut #acc = Vec::new();
+                                    for #pat in #it {
+                                        match #body { Some(#v) => { #acc.push(#v); } None => {} }
+                                    }
+                                    #acc
+                                });
+                                *e = ne;
+                                self.log("N8j-filter_map-collect-to-loop", sp);
+                            }
+                        }
+                    }
                     "collect" if mc.args.is_empty() && is_copied_iter(&mc.receiver) => {
                         // N8h: ITER.copied().collect() (into a Vec) => push loop
                         if let Expr::MethodCall(inner) = &*mc.receiver {
